@@ -682,7 +682,7 @@ theorem seqCorr (hF : F.WF) (as : List (LHS × Expr)) (hp : as.Perm F.assigns) :
     intro n h h'
     exact h ((hp.map tgt).mem_iff.mpr h')
   refine ⟨⟨hp.trans (perm_topo hF), acyc_topo hF, ?_, ?_⟩, sched_ok hF, rfl, rfl, ?_, ?_, ?_, ?_, ?_, ?_, ?_, hF.rv_lt⟩
-  · intro V hfix hV a ha
+  · intro V hfix hV _ a ha
     exact just_all hF V hfix hV a (hp.mem_iff.mp ha)
   · intro n k hn hu c hc
     rcases List.mem_map.mp hc with ⟨kd, hkd, e⟩
